@@ -430,8 +430,8 @@ int main(int argc, char **argv) {
     NW = argc > 2 ? atoi(argv[2]) : 1; WK = argc > 3 ? atoi(argv[3]) : 0;
     THOROUGH = strcmp(tier, "thorough") == 0;
     fesetround(FE_TONEAREST);
-    if (!*only || strstr(only, "accept")) family_accept(THOROUGH ? 7 : 6);
-    if (!*only || strstr(only, "grid")) family_grid(THOROUGH ? 4 : 3);
+    if (!*only || strstr(only, "accept")) family_accept(getenv("NUM_ACCEPT_LEN") ? atoi(getenv("NUM_ACCEPT_LEN")) : (THOROUGH ? 8 : 6));
+    if (!*only || strstr(only, "grid")) family_grid(getenv("NUM_GRID_DIGITS") ? atoi(getenv("NUM_GRID_DIGITS")) : (THOROUGH ? 5 : 3));
     if (!*only || strstr(only, "ties")) family_ties();
     if (!*only || strstr(only, "format")) family_format();
     printf("D %ld\n", nviol);
